@@ -827,6 +827,41 @@ class Unit:
             text = icfg["wrap_impl"] + " {\n" + text + "\n}"
         return Chunk("repo", label, text, relfile, (l1, l2), sha, [fname])
 
+    def _extract_closure(self, icfg: dict, variant: Optional[str], vacuity: bool = False) -> Chunk:
+        """`closure_of`: W12 -- the body of the n-th closure of fn X becomes the body of a named function whose
+        signature (the closure's parameter with its type written out, and the return type) comes from the unit.
+        The enclosing expression (typically an iterator chain Verus cannot take) is NOT verified."""
+        relfile = icfg["file"]
+        src = R.Source(os.path.join(REPO, relfile))
+        it = src.find(icfg["select"])
+        n = int(icfg["closure_of"])
+        label = icfg.get("label", f"{icfg['select']} / closure #{n}")
+        ct = src.ct
+        cl = R.closures(ct, it.body_open + 1, it.body_close)
+        if n >= len(cl):
+            raise ExtractError(f"{label}: closure #{n} not found (function has {len(cl)})")
+        hf, hl, bf, bl = cl[n]
+        hdr = src.text[ct[hf].start:ct[hl].end]
+        want = icfg.get("closure_header")
+        if want is not None and "".join(hdr.split()) != "".join(want.split()):
+            raise ExtractError(f"{label}: closure #{n} has header `{hdr}`, expected `{want}`")
+        raw = src.text[ct[bf].start:ct[bl].end]
+        sha = hashlib.sha256(raw.encode()).hexdigest()
+        l1, l2 = src.line_of(ct[bf].start), src.line_of(ct[bl].end - 1)
+        self.spans.append({"item": label, "file": relfile, "lines": [l1, l2], "sha256": sha})
+        fname = icfg["wrap_fn"]
+        self.report.add("W12", label, f"closure `{hdr}` wrapped as `{icfg['wrap_sig']}`; the enclosing expression is not verified")
+        body = raw if ct[bf].text == "{" else "{ " + raw + " }"
+        text = icfg["wrap_sig"] + " " + body
+        substs = list(self.cfg.get("subst", [])) + list(icfg.get("subst", []))
+        if icfg.get("w6", self.cfg.get("w6", False)):
+            text = w6_message_text(text, self.report, fname)
+        if icfg.get("desugar_try"):
+            text = desugar_try(text, self.report, fname)
+        text = apply_token_substs(text, substs, self.report, fname)
+        text = splice_fn(text, self._splice_for(fname, variant, icfg.get("owner", "")), fname, vacuity)
+        return Chunk("repo", label, text, relfile, (l1, l2), sha, [fname])
+
     def _splice_for(self, fname: str, variant: Optional[str], owner: str = "") -> Splice:
         names = ([f"{owner}.{fname}"] if owner else []) + [fname]
         dirs = (self.dir, os.path.join(VERIF, "contracts", "_common"))
@@ -863,7 +898,9 @@ class Unit:
                 spec = open(vs, encoding="utf-8").read()
         self.chunks.append(Chunk("prelude", "prelude.rs (TRUSTED)", pitems))
         for icfg in self.cfg.get("item", []):
-            if "block_of" in icfg:
+            if "closure_of" in icfg:
+                ch = self._extract_closure(icfg, variant, vacuity)
+            elif "block_of" in icfg:
                 ch = self._extract_block(icfg, variant, vacuity)
             else:
                 ch = self._extract_item(icfg, variant, vacuity)
